@@ -120,6 +120,7 @@ REVERTS = {
     "revert-alias-array-helper-collision": ("023e641", ["C10"]),
     "revert-include-guard-collision": ("867c345", ["C10"]),
     "revert-enum-member-digit-split": ("3c754e2", ["C15"]),
+    "revert-import-path-nul": ("519e959", ["C09"]),
 }
 for _n, (_c, _p) in REVERTS.items():
     CATALOGUE[_n] = (_p, [("@revert", _c, "")], f"revert of fix {_c}")
